@@ -7,7 +7,6 @@ package verifsim
 // synctest bubble (fake clock).
 
 import (
-	sqlite3 "github.com/mattn/go-sqlite3"
 	"context"
 	"crypto/sha256"
 	"database/sql"
@@ -15,6 +14,7 @@ import (
 	"encoding/json"
 	"errors"
 	"fmt"
+	sqlite3 "github.com/mattn/go-sqlite3"
 	"io"
 	"net/http"
 	"net/url"
